@@ -145,7 +145,7 @@ class CollectFields(Contract):
     params = ['execution_context', 'runtime_type', 'selection_set', 'fields', 'visited_fragment_names']
     mutable = {'fields': 'dict', 'visited_fragment_names': 'set'}
     recursive = True
-    timeout_ms = 8000
+    timeout_ms = 20000
 
     def args(self, en, names):
         self.A = super().args(en, names)
@@ -221,7 +221,7 @@ class CollectSubfields(Contract):
     key = C + 'collect_subfields'
     property_ids = ('C01',)
     params = ['execution_context', 'return_type', 'field_nodes']
-    timeout_ms = 8000
+    timeout_ms = 20000
 
     def args(self, en, names):
         self.A = super().args(en, names)
